@@ -20,9 +20,12 @@ LEVEL_TEXT = (
     "the stated bound with ARBITRARY int32 contents; the end-of-file reconstruction (SunVoxReader.process_end_of_file, a two-pass algorithm "
     "over all modules) against the contract 'the out tables are exactly the mirror of the in tables, the rebuilt slots are the saved slots' "
     "for EVERY content of the in tables that is the in side of a LinksOK state (source and slot numbers symbolic), per enumerated table "
-    "shape (up to 4 module positions, 4 entries, one empty position), with the slot chunks as the writer elides them and with none at all. "
+    "shape (up to 4 module positions, 4 entries, one empty position), with the slot chunks as the writer elides them and with none at all; "
+    "and the composition through a real file ('link_tables_through_file': real writer -> real reader on a project whose in tables have symbolic "
+    "LinksOK contents, freed entries anywhere; in tables come back up to trailing freed entries, out tables are the mirror). "
     "Bounded: the composition through real files on every link state reachable by the C07 histories at small scope - run-time contract "
-    "evaluation on the real writer/reader, listed under bounded_parts, not counted as proved."
+    "evaluation on the real writer/reader (this also covers what the symbolic cases fix: that saving leaves the live tables untouched and that "
+    "intermediate saves do not change the outcome of a history), listed under bounded_parts, not counted as proved."
 )
 EXPLANATION = LEVEL_TEXT
 ASSUMPTIONS = [
@@ -174,6 +177,26 @@ def link_states_persist(H, _):
 # tables.  The CONTENTS of the in tables are symbolic: every source number and every slot number.
 
 
+def _check_out_tables_mirror(H, shape, mods, src, slot, ents):
+    """out tables of every module == the mirror of the (symbolic) in entries, no trailing freed slot."""
+    for s, n in enumerate(shape):
+        if n is None:
+            continue
+        m = mods[s]
+        L_ = len(m.out_links)
+        H.check(f"out_tables_same_length[{s}]", L_ == len(m.out_link_slots))
+        conds = []
+        for j in range(min(L_, len(m.out_link_slots))):
+            live = [H.and_(src[e] == s, slot[e] == j) for e in ents]
+            exp_ok = H.and_(*[H.implies(c, H.and_(H.eq(m.out_links[j], e[0]), H.eq(m.out_link_slots[j], e[1]))) for c, e in zip(live, ents)])
+            none_ok = H.implies(H.not_(H.or_(*live)) if live else True, H.and_(H.eq(m.out_links[j], -1), H.eq(m.out_link_slots[j], -1)))
+            conds.append(H.and_(exp_ok, none_ok))
+        H.check(f"out_entries_mirror_the_in_entries[{s}]", H.and_(*conds) if conds else True)
+        H.check(f"every_in_entry_naming_this_source_has_its_slot[{s}]",
+                H.and_(*[H.implies(src[e] == s, slot[e] < L_) for e in ents]) if ents else True)
+        H.check(f"no_trailing_freed_out_slot[{s}]", True if L_ == 0 else H.not_(H.eq(m.out_links[L_ - 1], -1)))
+
+
 def _eof_shapes(tier):
     # (label, (lengths of the in tables of modules 0..T-1 ; None = empty position))
     quick = [(1, 1), (0, 2), (2, 0), (1, 0, 1), (2, None, 1)]
@@ -277,20 +300,64 @@ def end_of_file_reconstruction(H, case):
         H.check(f"in_links_untouched[{d}]", len(m.in_links) == n and H.and_(*[H.eq(m.in_links[k], src[d, k]) for k in range(n)]))
         H.check(f"in_link_slots_are_the_saved_slots[{d}]",
                 len(m.in_link_slots) == n and H.and_(*[H.eq(m.in_link_slots[k], slot[d, k]) for k in range(n)]))
-    for s, n in enumerate(shape):
-        if n is None:
-            continue
-        m = mods[s]
-        L_ = len(m.out_links)
-        H.check(f"out_tables_same_length[{s}]", L_ == len(m.out_link_slots))
-        conds = []
-        for j in range(min(L_, len(m.out_link_slots))):
-            live = [H.and_(src[e] == s, slot[e] == j) for e in ents]
-            exp_ok = H.and_(*[H.implies(c, H.and_(H.eq(m.out_links[j], e[0]), H.eq(m.out_link_slots[j], e[1]))) for c, e in zip(live, ents)])
-            none_ok = H.implies(H.not_(H.or_(*live)) if live else True, H.and_(H.eq(m.out_links[j], -1), H.eq(m.out_link_slots[j], -1)))
-            conds.append(H.and_(exp_ok, none_ok))
-        H.check(f"out_entries_mirror_the_in_entries[{s}]", H.and_(*conds) if conds else True)
-        H.check(f"every_in_entry_naming_this_source_has_its_slot[{s}]",
-                H.and_(*[H.implies(src[e] == s, slot[e] < L_) for e in ents]) if ents else True)
-        H.check(f"no_trailing_freed_out_slot[{s}]", True if L_ == 0 else H.not_(H.eq(m.out_links[L_ - 1], -1)))
+    _check_out_tables_mirror(H, shape, mods, src, slot, ents)
+    H.cover("reached")
+
+
+def _file_shapes(tier):
+    quick = [(1, 1), (0, 2), (2, 0), (1, 0, 1)]
+    more = [(1, 1, 1), (0, 2, 1), (2, 1, 0), (0, 1, 2), (0, 3, 0), (2, 2, 0)]
+    return [(",".join(map(str, sh)), sh) for sh in (quick if tier == "quick" else quick + more)]
+
+
+@contract(
+    "link_tables_through_file", ["C08", "C01"], cases=_file_shapes, timeout_ms=20000, max_paths=60000,
+    targets=["rv.project:Project.chunks", "rv.readers.module:ModuleReader.process_SLNK", "rv.readers.module:ModuleReader.process_SLnK",
+             "rv.readers.sunvox:SunVoxReader.process_end_of_file", "rv.readers.reader:read_sunvox_file"],
+)
+def link_tables_through_file(H, shape):
+    """The composition, through a real file: a project whose in tables hold ARBITRARY contents that are the in
+    side of a LinksOK state (source and slot numbers symbolic, freed entries anywhere - also at the end) is
+    written by the real writer and read back by the real reader.
+    ensures: every module's in_links / in_link_slots come back equal up to trailing freed entries, and the out
+    tables are exactly the mirror of the in entries (same clauses as end_of_file_reconstruction): the graph,
+    the slot positions of incoming and outgoing links and LinksOK are all preserved, whether the writer kept or
+    elided the slot chunk of a module (the elision decision is taken by the real writer on the symbolic slots)."""
+    T = len(shape)
+    p = L.new_project(T - 1)
+    mods = list(p.modules)
+    E = sum(shape)
+    K = E + 1
+    src, slot = {}, {}
+    for d, n in enumerate(shape):
+        for k in range(n):
+            src[d, k] = H.int(f"src[{d}][{k}]", -1, T - 1)
+            slot[d, k] = H.int(f"slot[{d}][{k}]", -1, K - 1)
+    ents = sorted(src)
+    for e in ents:
+        H.assume(H.eq(src[e] == -1, slot[e] == -1))
+    for a in ents:
+        for b in ents:
+            if a < b:
+                if a[0] == b[0]:
+                    H.assume(H.or_(src[a] == -1, src[a] != src[b]))
+                H.assume(H.or_(src[a] == -1, src[a] != src[b], slot[a] != slot[b]))
+    for d, n in enumerate(shape):
+        mods[d].in_links = [src[d, k] for k in range(n)]
+        mods[d].in_link_slots = [slot[d, k] for k in range(n)]
+    q = rw.read_back(H, rw.write_container(H, p))
+    H.check("same_number_of_modules", len(q.modules) == T)
+    if len(q.modules) != T:
+        return
+    qm = list(q.modules)
+    for d, n in enumerate(shape):
+        for attr, tab in (("in_links", src), ("in_link_slots", slot)):
+            got = list(getattr(qm[d], attr))
+            g = len(got)
+            ok = g <= n
+            if ok:
+                ok = H.and_(*([H.eq(got[k], tab[d, k]) for k in range(g)] + [tab[d, k] == -1 for k in range(g, n)]
+                              + ([H.not_(H.eq(got[g - 1], -1))] if g else [])))
+            H.check(f"{attr}_equal_up_to_trailing_freed_entries[{d}]", ok)
+    _check_out_tables_mirror(H, shape, qm, src, slot, ents)
     H.cover("reached")
